@@ -529,7 +529,7 @@ fn c14_case(ctx: &mut Ctx, n: usize, kfail: usize, stdin_kind: &str, term: &str,
 }
 
 pub fn run_c13(ctx: &mut Ctx) {
-    let n = ctx.n(1000, 5000);
+    let n = ctx.n(1000, 20_000);
     ctx.family("pipelines", n, c13_case);
 }
 
@@ -560,7 +560,7 @@ pub fn run_c14(ctx: &mut Ctx) {
         }
         c14_case(ctx, n, kf, s, t, e, det);
     });
-    let nr = ctx.n(0, 1500);
+    let nr = ctx.n(0, 8000);
     ctx.family("longer", nr, |ctx, rng, _i| {
         let n = rng.range(5, 6) as usize;
         let kf = rng.below(n as u64) as usize;
